@@ -193,7 +193,7 @@ func (ls *loopScan) scan(fn *ssa.Function, blocks map[*ssa.BasicBlock]bool, dept
 					if c.Pure {
 						continue
 					}
-					if c.Extern && !c.ModAll {
+					if (c.Extern || c.Trusted) && !c.ModAll {
 						if len(c.Modifies) == 0 {
 							continue
 						}
@@ -353,6 +353,11 @@ func (vc *VC) loopHeader(fr *frame, h *ssa.BasicBlock, st *state, ord int) {
 		}
 		vc.oblige("inv-entry", fmt.Sprintf("loop %d invariant holds on entry: %s", ord, c.Name()), c.Props, pos, st.reach, t)
 	}
+	if fr.depth == 0 {
+		for _, g := range vc.frameGoals(fr, vc.contract, st) {
+			vc.oblige("frame-inv-entry", fmt.Sprintf("loop %d: frame condition holds on entry for %s", ord, g.key), nil, pos, st.reach, g.goal)
+		}
+	}
 	// 2. havoc
 	var keys []string
 	if li.all {
@@ -426,7 +431,25 @@ func (vc *VC) loopHeader(fr *frame, h *ssa.BasicBlock, st *state, ord int) {
 			vc.assume(st.reach, "(>= "+n+" (- 1))")
 		}
 	}
+	// processed keys of a map iteration are keys of the map (instantiated at ghost keys)
+	for _, ins := range h.Instrs {
+		if nx, ok := ins.(*ssa.Next); ok {
+			if r, ok := nx.Iter.(*ssa.Range); ok {
+				if it, ok := fr.iters[r]; ok && it.mapType != nil {
+					P := vc.heapGetOr(st.heap, it.key)
+					for _, g := range vc.ghostByKey[vc.S.sortOf(it.mapType.Key())] {
+						vc.assume(st.reach, fmt.Sprintf("(=> (select %s %s) (select %s %s))", P, g, it.dom, g))
+					}
+				}
+			}
+		}
+	}
 	// 3. assume invariants
+	if fr.depth == 0 {
+		for _, g := range vc.frameGoals(fr, vc.contract, st) {
+			vc.assume(st.reach, g.goal)
+		}
+	}
 	for _, c := range invs {
 		env := vc.specEnv(fr, st, h)
 		t, err := env.evalBool(c.Expr)
@@ -456,6 +479,11 @@ func (vc *VC) backEdge(fr *frame, from, h *ssa.BasicBlock, cond string, st *stat
 	}
 	pos := vc.pos(fr, firstPos(h))
 	bst := &state{reach: cond, heap: st.heap}
+	if fr.depth == 0 {
+		for _, g := range vc.frameGoals(fr, vc.contract, bst) {
+			vc.oblige("frame-inv-preserved", fmt.Sprintf("loop %d: frame condition preserved for %s", ord, g.key), nil, pos, cond, g.goal)
+		}
+	}
 	for _, c := range invs {
 		env := vc.specEnv(fr, bst, h)
 		t, err := env.evalBool(c.Expr)
